@@ -71,6 +71,8 @@ def shape_tag(sel, kind, refac):
         return 'selection_contains_walrus_or_yield'
     if sel.get('is_stmt') and f.get('contains_nonlocal_global'):
         return 'statement_range_contains_global_or_nonlocal'
+    if sel.get('is_stmt') and f.get('reads_variable_it_rebinds'):
+        return 'statements_read_a_variable_they_rebind'
     if sel.get('is_stmt') and f.get('has_return_or_yield') and kind == 'range_nl':
         return 'return_statement_selected_including_its_newline'
     if sel.get('is_stmt') and kind == 'range_nl':
@@ -186,10 +188,12 @@ def run(spec):
                         new_main=newf.get('main.py', '')[:3000], **w)
             shutil.rmtree(dest, ignore_errors=True)
             continue
-        claim = (kind in ('range', 'pos') and not tag and
+        claim = (kind in ('range', 'pos', 'range_in') and not tag and
                  (sel['flags'].get('pure') if refac != 'inline' else sel['flags'].get('equivalence_claimed')))
         if refac == 'extract_function' and sel.get('is_stmt'):
-            claim = False   # statement ranges: compiles-or-refuses only
+            # statement ranges: compile-or-refuse always; trace equality for blocks of plain
+            # assignments with pure values, selected in the convention upstream's fixtures use
+            claim = bool(kind == 'range_in' and not tag and sel['flags'].get('pure_block'))
         if claim:
             trace1 = c05.run_program(dest)
             rec.ev('c06:traces_compared')
